@@ -510,6 +510,50 @@ def history_cases(res, rng, count, data, targets=None, expo=None):
     return cases, meta
 
 
+def pirls_state(model, cls, X, y, w, e, fa):
+    """the PIRLS quantities at the model's final coefficients on its fit data, exactly as _pirls forms them:
+    returns (number of rows _mask drops, linear predictor after ONE exact unmasked-row PIRLS step from there)"""
+    import scipy.sparse
+    from pygam.utils import check_X, check_y
+    yy = np.asarray(y, dtype=float)
+    ww = np.array(w).astype('f').ravel().astype(float) if fa['w'] else np.ones_like(yy)
+    if cls == 'PoissonGAM' and fa['e']:
+        yy, ww = model._exposure_to_weights(yy, e, ww if fa['w'] else None)
+    B = model._modelmat(X)
+    lp = model._linear_predictor(modelmat=B)
+    mu = model.link.mu(lp, model.distribution)
+    Wd = np.asarray(model._W(mu, ww, yy).diagonal(), dtype=float)
+    mask = (np.abs(Wd) >= np.sqrt(np.finfo(float).eps)) * np.isfinite(Wd)
+    n_masked = int((~mask).sum())
+    Bm = np.asarray(B.todense())[mask]
+    z = np.asarray(model._pseudo_data(yy[mask], lp[mask], mu[mask]), dtype=float)
+    W2 = Wd[mask] ** 2
+    P = np.asarray(model._P().todense()) if scipy.sparse.issparse(model._P()) else np.asarray(model._P())
+    M = Bm.T @ (W2[:, None] * Bm) + P + np.sqrt(np.finfo(float).eps) * np.eye(Bm.shape[1])
+    beta = np.linalg.solve(M, Bm.T @ (W2 * z))
+    return n_masked, np.asarray(B.todense()) @ beta
+
+
+def explain_mismatch(model, fresh, cls, X, y, w, e, fa):
+    """why do a model and a fresh model fitted the same way on the same data predict differently although every term state comes from
+    that data?  'masked': _mask dropped rows at the end point of at least one of the two fits (the warm start -- coef_ doubles as the PIRLS
+    starting value -- froze the iteration on a subset of the rows); 'stopped-early': one exact PIRLS step from either end point leads to the
+    same linear predictor, i.e. both fits stopped by the relative-change rule within one Newton step of the same optimum of a flat
+    criterion; None: neither."""
+    try:
+        with warnings_off():
+            m1, eta1 = pirls_state(model, cls, X, y, w, e, fa)
+            m2, eta2 = pirls_state(fresh, cls, X, y, w, e, fa)
+    except Exception:
+        return None, {}
+    info = dict(rows_masked_model=m1, rows_masked_fresh=m2)
+    if m1 > 0 or m2 > 0:
+        return 'masked', info
+    if np.all(np.isfinite(eta1)) and np.all(np.isfinite(eta2)) and np.allclose(eta1, eta2, rtol=1e-6, atol=1e-8):
+        return 'stopped-early', info
+    return None, info
+
+
 def observe_with_weights(h):
     """abstract observation of every model; the fresh model is of the same class, has the settings the model has NOW (a keep_best grid
     search changes lam, fit_quantile the expectile), fresh term objects, and is fitted the way the model was last fitted (same weights /
@@ -556,6 +600,21 @@ def observe_with_weights(h):
                                     expected={k: (b[k] if k != 'ci90' else 'equal intervals') for k in bad}))
                 except Exception:
                     fe = False
+                own_state = all(h.specs[i][0] == 'l' or k == d for i, k in zip(ids, kn))     # no term recompiled by another model
+                if fe is False and own_state:
+                    why, info = explain_mismatch(model, fresh, h.cls, X, y, w, e, fa)
+                    if why == 'masked':
+                        # known: the old coef_ is the PIRLS starting value; with saturated means _mask drops rows and the refit ends elsewhere
+                        h.res.violations.append(dict(
+                            what='a model fitted before ends at a different point than a fresh model fitted the same way on data%d: rows are '
+                                 'dropped by _mask at the end point (saturated working weights after the warm start)' % d,
+                            finding=FINDINGS['warm_start'], input=dict(cls=h.cls, history=h.log, model=m, data=d), observed=info,
+                            expected='the same fit as a fresh model'))
+                        h.res.count('fresh_equal:%s:not asserted (masked rows after warm start)' % h.cls)
+                        fe = None
+                    elif why == 'stopped-early':
+                        h.res.count('fresh_equal:%s:True after one exact PIRLS step from both end points' % h.cls)
+                        fe = True
                 h.res.case(('fresh-equal', h.hid, m))
                 h.res.count('fresh_equal:%s:%s' % (h.cls, fe))
         obs.append((ids, kn, d, fe))
@@ -780,7 +839,7 @@ def run(res):
                                    observed='observation differs', expected='see coq/Model/Heap.v'))
     res.extra['correspondence_cases'] = len(cases)
     res.extra['tolerances'] = {'caller arrays, predict_mu / statistics_ / coef_ around queries': 'bitwise',
-                               'prediction equals fresh model': 'rtol 1e-5, atol 1e-8, compared only when the model and the fresh model report convergence (tol 1e-7): warm start changes the PIRLS path, not the optimum',
+                               'prediction equals fresh model': 'rtol 1e-5, atol 1e-8, compared only when the model and the fresh model report convergence (tol 1e-7); a mismatch with all term state from the fit data is re-examined: rows dropped by _mask at an end point = known finding S6e (flag not asserted); one exact PIRLS step from both end points giving the same linear predictor (rtol 1e-6) = both stopped by the relative-change rule near the same optimum (counted equal); anything else is a violation',
                                'row-wise predictions': 'rtol 1e-10, atol 1e-12'}
     res.trusted.append('hand-written heap machine coq/Model/Heap.v (term objects by reference, compile in place), validated by '
                        'correspondence on random histories of all six model classes (the machine does not inspect the family); pickle / deepcopy are '
